@@ -2,6 +2,8 @@ open Datatypes
 
 val add : nat -> nat -> nat
 
+val sub : nat -> nat -> nat
+
 val eqb : nat -> nat -> bool
 
 val leb : nat -> nat -> bool
